@@ -183,6 +183,17 @@ def runner(rep, tier, seed, replay):
                 rep.violation("hang/sigpipe", "`%s` (%s) did not terminate: the endless writer was not stopped when its reader exited" % (ln, ent), case, feat)
             elif len(mk) != 1 or mk[0].get("argv") != [want]:
                 rep.violation("status/sigpipe", "`%s` (%s): status after the pipeline %s, expected %s" % (ln, ent, [m.get("argv") for m in mk], want), case, feat)
+    # descriptor exhaustion while the pipeline is being started (the here-string pipe of a later stage cannot be made) with an
+    # earlier stage that writes more than a pipe buffer: the pipeline fails, but it terminates - the writer sees a closed reader
+    lim = [{"entry": "c", "text": "ulimit -n %d ; vst p mode=prod,n=300000 | vst f mode=filt | vio h r <<< hi ; ulimit -n 256 ; vmk 9 0" % n,
+            "timeout": 25, "want_files": False} for n in range(4, 14)]
+    for j, res in zip(lim, run_cases(lim)):
+        rep.cov["evaluations"] += 1
+        mk = [r for r in res.get("log", []) if r.get("h") == "mk" and r.get("id") == "9"]
+        feat = {"n": 3, "kinds": ["late-pipe-failure"], "payload": "big", "exit": 0, "entry": "c"}
+        if res.get("timed_out") or len(mk) != 1:
+            rep.violation("hang/late-pipe-failure", "`%s` did not get past the pipeline (markers %d, stderr %s)" % (j["text"], len(mk), res.get("stderr", "")[-200:]),
+                          {"scenario": {"latefail": True}, "text": j["text"], "status": res.get("status"), "stderr": res.get("stderr", "")[-300:]}, feat)
     # a stage that is stopped and continued from outside while the pipeline runs has not terminated: the shell resumes only
     # after it has really ended, with its status (controller stage: stop the last / the first stage, wait until it is stopped,
     # continue it, exit; the other stage goes on for a while, leaves a marker and exits 7 / 0)
